@@ -18,6 +18,7 @@ var impls = map[string]func(string) string{
 	"chunk.disc":     implChunkDisc,
 	"chunk.ops":      implChunkOps,
 	"par.accept":     implParAccept,
+	"wdq.accept":     implWdqAccept,
 	"fmt.next":       implFmtNext,
 	"hash":           implHash,
 	"ip.ops":         implIpOps,
